@@ -19,6 +19,8 @@ pub mod exercise_hdr;
 pub mod exercise_mbi;
 pub mod expect_hdr;
 pub mod expect_mbi;
+pub mod extent;
+pub mod fuzzdec;
 pub mod transcript;
 pub mod walk;
 
